@@ -7,6 +7,9 @@ case kinds:
   {"k": "filter", "default": lvl, "sets": [[namespace, lvl], ...], "queries": [[lvl|None, namespace], ...]}
       levels 0..4 = debug, info, warn, error, critical; observation per query "<level index><T|F>"
   {"k": "buf", "size": n|None, "events": [n, ...]}     observation: the replayed events
+  {"k": "fhist", "default": lvl, "ops": [["set", ns, lvl] | ["clear"] | ["q", ns] | ["f", lvl|None, ns], ...]}
+      a HISTORY of calls on ONE LogLevelFilterPredicate: setLogLevelForNamespace / clearLogLevels /
+      logLevelForNamespace (observation: level index) / predicate(event) (observation: T|F)
 """
 from __future__ import annotations
 
@@ -64,6 +67,24 @@ def impl(case) -> str:
                 ev["log_level"] = L[lvl]
             r = p(ev)
             res.append(f"{L.index(p.logLevelForNamespace(ns))}{'T' if r is PredicateResult.maybe else 'F'}")
+        return " ".join(res)
+    if k == "fhist":
+        from twisted.logger import LogLevelFilterPredicate, PredicateResult
+        L = _levels()
+        p = LogLevelFilterPredicate(defaultLogLevel=L[case["default"]])
+        res = []
+        for op in case["ops"]:
+            if op[0] == "set":
+                p.setLogLevelForNamespace(op[1], L[op[2]])
+            elif op[0] == "clear":
+                p.clearLogLevels()
+            elif op[0] == "q":
+                res.append(str(L.index(p.logLevelForNamespace(op[1]))))
+            else:
+                ev = {"log_namespace": op[2]}
+                if op[1] is not None:
+                    ev["log_level"] = L[op[1]]
+                res.append("T" if p(ev) is PredicateResult.maybe else "F")
         return " ".join(res)
     from twisted.logger import LimitedHistoryLogObserver
     h = LimitedHistoryLogObserver(case["size"])
@@ -125,6 +146,46 @@ def oracle(case, obs):
                 return Failure(case, f"namespace {ns!r} level {lvl}: got {t}, expected level {want_level} pass={want_pass}",
                                "filter-most-specific-prefix" if t[:-1] != str(want_level) else "filter-decision")
         return None
+    if k == "fhist":
+        cfg, default = {}, case["default"]
+        toks = obs.split(" ") if obs else []
+        pos = 0
+
+        def ref(ns):
+            # most specific configured dotted prefix of the CURRENT configuration, on the strings
+            if ns:
+                segs = ns.split(".")
+                for i in range(len(segs), 0, -1):
+                    key = ".".join(segs[:i])
+                    if key in cfg:
+                        return cfg[key]
+            return default
+        for n, op in enumerate(case["ops"]):
+            if op[0] == "set":
+                if op[1]:
+                    cfg[op[1]] = op[2]
+                else:
+                    default = op[2]
+            elif op[0] == "clear":
+                cfg, default = {}, case["default"]
+            else:
+                if pos >= len(toks):
+                    return Failure(case, "missing answers", "log")
+                t = toks[pos]
+                pos += 1
+                if op[0] == "q":
+                    if t != str(ref(op[1])):
+                        stale = any(o[0] in ("q", "f") and o[-1] == op[1] for o in case["ops"][:n])
+                        return Failure(case, f"op {n} {op}: level {t}, expected {ref(op[1])} for the current configuration {cfg} "
+                                       f"default {default}", "filter-history-stale-level" if stale else "filter-most-specific-prefix")
+                else:
+                    lvl, ns = op[1], op[2]
+                    want = lvl is not None and bool(ns) and lvl >= ref(ns)
+                    if t != ("T" if want else "F"):
+                        stale = any(o[0] in ("q", "f") and o[-1] == ns for o in case["ops"][:n])
+                        return Failure(case, f"op {n} {op}: decision {t}, expected {want} for the current configuration {cfg} "
+                                       f"default {default}", "filter-history-stale-decision" if stale else "filter-decision")
+        return None
     ev, size = case["events"], case["size"]
     want = ev if size is None else (ev[max(0, len(ev) - size):] if size else [])
     if obs != "[" + ",".join(map(str, want)) + "]":
@@ -155,6 +216,27 @@ def gen(rng, tier):
         qs = [[rng.choice([None, 0, 1, 2, 3, 4]), _ns(rng)] for _ in range(rng.randrange(1, 8))]
         qs += [[rng.randrange(5), s[0] + rng.choice(["", ".b", ".bc", ".x.a"])] for s in sets[:3] if s[0]]
         cases.append({"k": "filter", "default": rng.randrange(5), "sets": sets, "queries": qs})
+    # filter as a history on one predicate: a family of namespaces sharing dotted prefixes, each queried / filtered
+    # repeatedly before and after its ancestors (and itself, and the default) are configured, re-configured, cleared
+    for _ in range(400 if tier == "quick" else 8000):
+        root = rng.choice(SEGS[:6])
+        fam = [root]
+        for _ in range(rng.randrange(2, 6)):
+            fam.append(rng.choice(fam) + "." + rng.choice(SEGS[:6]))
+        fam += [rng.choice(SEGS[:6]), ""]
+        ops = []
+        for _ in range(rng.randrange(4, 30)):
+            r = rng.random()
+            ns = rng.choice(fam)
+            if r < 0.3:
+                ops.append(["set", ns, rng.randrange(5)])
+            elif r < 0.35:
+                ops.append(["clear"])
+            elif r < 0.7:
+                ops.append(["q", ns])
+            else:
+                ops.append(["f", rng.choice([None, 0, 1, 2, 3, 4]), ns])
+        cases.append({"k": "fhist", "default": rng.randrange(5), "ops": ops})
     # buffer: N from 0 up, stream lengths around N
     for size in [None, 0, 1, 2, 3, 5, 8]:
         for ln in range(0, 12):
@@ -167,6 +249,8 @@ def corpus():
         {"k": "pub", "obs": [[False, False], [True, False], [False, True], [True, True]], "events": [7]},
         {"k": "filter", "default": 1, "sets": [["a", 3], ["a.b", 0], ["a.bc", 4], ["", 2]],
          "queries": [[2, "a"], [2, "a.b"], [2, "a.bc"], [2, "a.b.c"], [2, "a.bcd"], [2, "ab"], [None, "a"], [4, ""], [2, "x"]]},
+        {"k": "fhist", "default": 2, "ops": [["q", "a.b.c"], ["f", 1, "a.b.c"], ["set", "a.b", 0], ["q", "a.b.c"], ["f", 1, "a.b.c"],
+                                              ["set", "a", 4], ["q", "a.b.c"], ["q", "a.c"], ["clear"], ["q", "a.b.c"], ["set", "", 3], ["q", "a.b.c"]]},
         {"k": "buf", "size": 0, "events": [1, 2, 3]},
         {"k": "buf", "size": 3, "events": [1, 2, 3, 4, 5]},
     ]
@@ -192,12 +276,22 @@ def to_coq(case):
         qs = [f"({coq_option(None if l is None else str(l), 'nat')}, {coq_list(map(str, _seg_ids(ns)), 'nat')})"
               for l, ns in case["queries"]]
         return f"CFilter {coq_list(entries, '(list nat * nat)%type')} {default} {coq_list(qs, '(option nat * list nat)%type')}"
+    if k == "fhist":
+        def fop(o):
+            if o[0] == "set":
+                return f"FSet {coq_list(map(str, _seg_ids(o[1])), 'nat')} {o[2]}"
+            if o[0] == "clear":
+                return "FClear"
+            if o[0] == "q":
+                return f"FQuery {coq_list(map(str, _seg_ids(o[1])), 'nat')}"
+            return f"FFilter {coq_option(None if o[1] is None else str(o[1]), 'nat')} {coq_list(map(str, _seg_ids(o[2])), 'nat')}"
+        return f"CFHist {case['default']} {coq_list(map(fop, case['ops']), 'fop')}"
     size = coq_option(None if case["size"] is None else str(case["size"]), "nat")
     return f"CBuf {size} {coq_list(map(str, case['events']), 'nat')}"
 
 
 def shrink(case):
-    for key in ("events", "obs", "sets", "queries"):
+    for key in ("events", "obs", "sets", "queries", "ops"):
         if key in case:
             l = case[key]
             for i in range(len(l)):
@@ -210,12 +304,12 @@ SPEC = Spec(
     coq_header="From C57 Require Import Model Run.",
     coq_fn="run_show",
     to_coq=to_coq,
-    nontrivial=lambda c, o: (c["k"] == "pub" and ":x" in o) or (c["k"] == "filter" and bool(c["sets"])) or (c["k"] == "buf" and len(c["events"]) > (c["size"] or 0)),
+    nontrivial=lambda c, o: (c["k"] == "pub" and ":x" in o) or (c["k"] == "filter" and bool(c["sets"])) or (c["k"] == "fhist" and any(o[0] == "set" for o in c["ops"])) or (c["k"] == "buf" and len(c["events"]) > (c["size"] or 0)),
     histogram=lambda c, o: c["k"],
     rule="publisher: every raise pattern (ok / raises on events / raises on failure reports / both) for 0-4 observers "
          "(thorough 0-5; largest size sampled) plus random sets of 5-7 observers, 1-3 events; filter: random configurations of "
          "0-5 namespaces drawn from segments a,b,bc,c,ab,x (shared string prefixes a.b / a.bc), default set through the empty "
-         "namespace, queries with and without level, on configured names and their extensions; buffer: N in {None,0,1,2,3,5,8} "
+         "namespace, queries with and without level, on configured names and their extensions; filter histories: 4-29 interleaved set / clear / query / filter calls on ONE predicate over a family of namespaces sharing dotted prefixes (each queried repeatedly before and after changes to its ancestors, itself and the default); buffer: N in {None,0,1,2,3,5,8} "
          "x stream lengths 0-11; non-trivial = a failure report delivered / a configured filter / an overflowing buffer",
     trusted=["hand-written model coq/C57/Model.v (tied by this correspondence run only)",
              "observers that add/remove observers during a dispatch are not modelled (outside the property's quantifier)",
